@@ -21,7 +21,7 @@ import common
 import vhdl_reader as R
 
 RULES = ["wt_design", "assoc_ok", "case_ok", "ports_ok", "sens_ok", "idents_ok", "decl_unique", "no_reserved",
-         "no_hiding"]
+         "no_hiding", "no_user_reserved"]
 
 PREDEF_TYPES = ["std_logic", "std_logic_vector", "unsigned", "signed", "boolean", "integer", "natural"]
 PREDEF_FUNCS = ["to_integer", "to_unsigned", "to_signed", "resize", "shift_left", "shift_right", "rising_edge",
@@ -34,11 +34,12 @@ PREAMBLE = (common.COQ_HEADER +
             "From Coq Require Import String.\n"
             "From Cohdl Require Import Vhdl.Typing Vhdl.Names Vhdl.TablesRef.\n"
             "Local Open Scope string_scope.\n"
-            "Record ecase := { ec_d : design; ec_names : ent_names; ec_assoc : list assoc }.\n"
+            "Record ecase := { ec_d : design; ec_names : ent_names; ec_assoc : list assoc; ec_user : list string }.\n"
             "Definition rules (c : ecase) : list bool :=\n"
             "  [ wt_design c.(ec_d); forallb (assoc_ok (mk_tenv c.(ec_d))) c.(ec_assoc); case_ok c.(ec_d);\n"
             "    ports_ok c.(ec_d); sens_ok c.(ec_d); idents_ok c.(ec_names); decl_unique c.(ec_names);\n"
-            "    no_reserved vhdl93_reserved c.(ec_names); no_hiding predefined_used_by_emitter c.(ec_names) ].\n"
+            "    no_reserved vhdl93_reserved c.(ec_names); no_hiding predefined_used_by_emitter c.(ec_names);\n"
+            "    no_reserved (map lower c.(ec_user)) c.(ec_names) ].\n"
             "Fixpoint failing (l : list bool) (i : N) : list N :=\n"
             "  match l with [] => [] | b :: r => if b then failing r (i + 1)%N else i :: failing r (i + 1)%N end.\n"
             "Definition verdict (c : ecase) : list N * list N := (failing (rules c) 0%N, ill_typed_conc c.(ec_d)).\n")
@@ -317,7 +318,7 @@ class ECase:
         self.meta = meta
 
 
-def build_cases(dname, vhdl):
+def build_cases(dname, vhdl, user_reserved=None):
     """-> (list of ECase, lib_names) ; raises R.Unparsed"""
     ents = R.parse_library(vhdl)
     texts = split_entities(vhdl)
@@ -333,7 +334,8 @@ def build_cases(dname, vhdl):
         dterm = pr.design()
         aterms, ainfo = assoc_terms(e, insts, by_name, pr, ren, sub)
         nterm, ninfo = names_term(e, etext)
-        term = "{| ec_d := %s;\n ec_names := %s;\n ec_assoc := [%s] |}" % (dterm, nterm, "; ".join(aterms))
+        term = "{| ec_d := %s;\n ec_names := %s;\n ec_assoc := [%s]; ec_user := %s |}" % (
+            dterm, nterm, "; ".join(aterms), coq_strs(user_reserved or []))
         cases.append(ECase(dname, e, term, {"names": ninfo, "stmts": stmts, "assoc": ainfo, "design": d}))
     return cases, [e.name for e in ents]
 
@@ -651,8 +653,8 @@ def expr_statements(rng, tier):
     out = []
     W = [1, 2, 3, 8]
 
-    def add(tag, ports, body, ctx="concurrent", pre=None):
-        out.append({"tag": tag, "ports": ports, "body": body, "ctx": ctx, "pre": pre or []})
+    def add(tag, ports, body, ctx="concurrent", pre=None, extra=None):
+        out.append({"tag": tag, "ports": ports, "body": body, "ctx": ctx, "pre": pre or [], "extra": extra or []})
 
     for w in W:
         for w2 in W:
@@ -765,6 +767,18 @@ def expr_statements(rng, tier):
                 lines += ["    case _:", "        self.o <<= Null"]
                 add("match_%s%d" % (k, w), {"clk": ("in", "Bit"), "s": ("in", _vec("B", w)), "a": ("in", _vec(k, 3)),
                                             "b": ("in", _vec(k, 3)), "o": ("out", _vec(k, 3))}, lines, "sequential")
+    for k in "UB":
+        add("seqall_%s3" % k, {"a": ("in", _vec(k, 3)), "b": ("in", _vec(k, 3)), "c": ("in", "Bit"), "o": ("out", _vec(k, 3))},
+            ["if self.c:", "    self.o <<= self.a", "else:", "    self.o <<= self.b"], "seqall")
+        add("seqall_idx_%s3" % k, {"a": ("in", _vec(k, 3)), "i": ("in", _vec("U", 2)), "o": ("out", "Bit")},
+            ["self.o <<= self.a[self.i]"], "seqall")
+    add("seqall_sig_U3", {"a": ("in", _vec("U", 3)), "c": ("in", "Bit"), "o": ("out", _vec("U", 3))},
+        ["if self.c:", "    self.o <<= loc", "else:", "    self.o <<= loc + 1"], "seqall",
+        ["loc = Signal[Unsigned[3]](name='loc')"], ["loc.next = self.a"])
+    add("readout_U3", {"clk": ("in", "Bit"), "a": ("in", _vec("U", 3)), "o": ("out", _vec("U", 3))},
+        ["self.o <<= self.o + self.a"], "sequential")
+    add("readout_conc_B3", {"a": ("in", _vec("B", 3)), "o": ("out", _vec("B", 3)), "p": ("out", _vec("B", 3))},
+        ["self.o <<= ~self.a", "self.p <<= self.o"])
     # Bit / bool
     for op in "&|^":
         add("bit%s_Bit" % op, {"a": ("in", "Bit"), "b": ("in", "Bit"), "o": ("out", "Bit")}, ["self.o <<= self.a %s self.b" % op])
@@ -828,7 +842,13 @@ def expr_design(idx, stmts):
         body = [rl(rn(l)) for l in st["body"]]
         if "ISIG" in st["pre"]:
             body = ["%s.next = self.%s" % (loc["isig"], ren["a"]), "self.%s <<= %s" % (ren["o"], loc["isig"])]
-        if st["ctx"] == "sequential":
+        if st.get("extra"):
+            blocks.append("        @std.concurrent\n        def e%d():\n" % j +
+                          "".join("            %s\n" % rl(rn(l)) for l in st["extra"]) + "\n")
+        if st["ctx"] == "seqall":
+            blocks.append("        @std.sequential\n        def q%d():\n" % j +
+                          "".join("            %s\n" % l for l in body) + "\n")
+        elif st["ctx"] == "sequential":
             clk = True
             blocks.append("        @std.sequential(std.Clock(self.clk))\n        def p%d():\n" % j +
                           "".join("            %s\n" % l for l in body) + "\n")
@@ -996,6 +1016,9 @@ class E7(cohdl.Entity):
 # ----------------------------------------------------------------------------------------------------------
 
 LIVE_RESERVED = set()
+# which name-assignment model the recorded scopes are compared with: "current" = complete_setup as it is in /repo,
+# "fixed" = with seeded/_proposed_fixes/C06_identifiers.diff applied (set the default to "fixed" once it is merged)
+MODEL = os.environ.get("C06_MODEL", "current")
 
 
 def name_class(n):
@@ -1131,7 +1154,7 @@ def classify(case, rule, bad_conc):
                 hid.append(nm)
         h = hid[0] if hid else "?"
         obj = "entity" if h == ent.name else kinds_of(ent, h)
-        return ({"rule": rule, "name": h.lower(), "object": obj},
+        return ({"rule": rule, "object": obj},
                 "declared %s %r hides the predefined name the emitted text relies on" % (obj, h), {"hidden": hid})
     if rule in ("wt_design", "case_ok", "sens_ok", "ports_ok"):
         stm = []
@@ -1151,6 +1174,12 @@ def classify(case, rule, bad_conc):
             hidden = [nm for nm, a, b in n["scoped"] if nm.lower() in PREDEF]
             cls = "consequence_of_hidden_predefined_name" if hidden else rule
         return ({"rule": rule, "class": cls}, "rule %s fails (%s)" % (rule, cls), {"statements": stm})
+    if rule == "no_user_reserved":
+        res = [x.lower() for x in (case.design.get("reserved") or [])]
+        bad = [x for x in [ent.name, ent.arch] + n["arch"] + [v for vs, _ in n["procs"] for v in vs] if x.lower() in res]
+        return ({"rule": rule, "object": kinds_of(ent, bad[0]) if bad else "?"},
+                "declared identifier %r equals (case-insensitively) a name the user reserved (%s)" % (
+                    bad[0] if bad else "?", case.design.get("reserved")), {"identifiers": bad})
     if rule == "assoc_ok":
         return ({"rule": rule}, "a port association is ill-typed", {"associations": case.meta["assoc"]})
     return ({"rule": rule}, "rule %s fails" % rule, {})
@@ -1253,10 +1282,15 @@ def uniquify_phase(ck, rep, compiled, live):
             used = sc["used"]
             extra = [u for u in used if u not in bset]
             if bset <= set(used):
-                ut = "(live_initially_used ++ %s)" % coq_strs(extra)
+                ut = "(live_initially_used ++ %s)%%list" % coq_strs(extra)
             else:
                 ut = coq_strs(used)
-            terms.append("(%s, %s, %s)" % (ut, coq_strs(sc["reqs"]), coq_strs(sc["names"])))
+            if MODEL == "fixed":
+                reqs = "[" + "; ".join("(%s, %s)" % (coq_str(a), coq_str(b or "obj")) for a, b in
+                                       zip(sc["reqs"], sc.get("fallbacks") or sc["reqs"])) + "]"
+            else:
+                reqs = coq_strs(sc["reqs"])
+            terms.append("(%s, %s, %s)" % (ut, reqs, coq_strs(sc["names"])))
             owners.append((d, res, sc))
     if not terms:
         return
@@ -1270,9 +1304,11 @@ def uniquify_phase(ck, rep, compiled, live):
         path = os.path.join(ck.gen, "uniq_%04d.v" % (si // shard))
         with open(path, "w") as f:
             f.write(pre + "From Cohdl Require Import Base.Util.\n")
-            f.write("Definition cases : list (list string * list string * list string) := [\n  " +
+            f.write("Definition cases : list (list string * %s * list string) := [\n  " % (
+                "list (string * string)" if MODEL == "fixed" else "list string") +
                     ";\n  ".join(terms[si:si + shard]) + "].\n")
-            f.write("Eval vm_compute in (bad_indices (fun c => strs_eqb (uniquify (fst (fst c)) (snd (fst c))) (snd c)) cases).\n")
+            f.write("Eval vm_compute in (bad_indices (fun c => strs_eqb (%s (fst (fst c)) (snd (fst c))) (snd c)) cases).\n"
+                    % ("uniquify_fixed" if MODEL == "fixed" else "uniquify"))
         files.append((si, path))
     outs = common.coqc_many([p for _, p in files], timeout=900, extra_q=[(ck.gen, "C06gen")])
     bad = []
@@ -1303,6 +1339,10 @@ def uniquify_phase(ck, rep, compiled, live):
 
 def run(ck: common.Check, replay=None):
     rep = Reporter(ck)
+    if replay is None:
+        for f in os.listdir(ck.replay_dir):
+            if re.fullmatch(r"v\d+\.json", f):
+                os.unlink(os.path.join(ck.replay_dir, f))
     ck.check_props("C06_Properties.v")
     live = tables_phase(ck, rep)
     rng = ck.rng
@@ -1314,7 +1354,7 @@ def run(ck: common.Check, replay=None):
     else:
         for name, ent, reserved, src in CORPUS:
             designs.append({"name": name, "source": src, "entity": ent, "reserved": reserved, "meta": {"gen": "corpus"}})
-        n_naming = int(os.environ.get("C06_NAMING", 110 if quick else 1500))
+        n_naming = int(os.environ.get("C06_NAMING", 110 if quick else 600))
         for i in range(n_naming):
             designs.append(naming_design(rng, i))
         stmts = expr_statements(rng, ck.tier)
@@ -1322,7 +1362,9 @@ def run(ck: common.Check, replay=None):
             pick = rng.sample(stmts, int(os.environ.get("C06_EXPR", 260)))
             # one of every unary / cast family is always in
             must = [s for s in stmts if s["tag"] in ("neg_U3", "neg_S3", "abs_S3", "enum_match", "enum_cmp", "array_rw",
-                                                     "bool_var", "neg_seq_U3", "toint_U3", "selectwith_B2", "match_B2")]
+                                                     "bool_var", "neg_seq_U3", "toint_U3", "selectwith_B2", "match_B2",
+                                                     "seqall_U3", "seqall_B3", "seqall_idx_U3", "seqall_sig_U3", "readout_U3",
+                                                     "readout_conc_B3", "widen_U3_U8", "widen_seq_S3_S8")]
             pick = must + [s for s in pick if s not in must]
         else:
             pick = list(stmts)
@@ -1375,7 +1417,7 @@ def run(ck: common.Check, replay=None):
         compiled.append((d, r))
         ck.evaluations += 1
         try:
-            cs, lib = build_cases(d["name"], r["vhdl"])
+            cs, lib = build_cases(d["name"], r["vhdl"], d.get("reserved"))
         except R.Unparsed as e:
             if g == "upstream":
                 # reader subset limits on designs ghdl accepts upstream: counted, cannot be judged
